@@ -2,7 +2,6 @@
 //
 //	translate grpcstatus <repo> <out.v>   ConvertGrpcStatus switch + docs table
 //	translate grpcdial <repo> <out.v>     dial options / InvokeRpc call options / outgoing metadata of the gRPC guns
-//	translate grpcdial <repo> <out.v>     dial options / InvokeRpc call options / outgoing metadata of the gRPC guns
 //	translate consts <repo> <out.v>       named constants used by the properties
 package main
 
@@ -20,8 +19,6 @@ func main() {
 	switch os.Args[1] {
 	case "grpcstatus":
 		err = genGrpcStatus(os.Args[2], os.Args[3])
-	case "grpcdial":
-		err = genGrpcDial(os.Args[2], os.Args[3])
 	case "grpcdial":
 		err = genGrpcDial(os.Args[2], os.Args[3])
 	case "consts":
